@@ -40,6 +40,20 @@ Section Control.
     end.
   Fixpoint ends (s : St) (segs : list (C * nat)) : list St :=
     match segs with [] => [] | (c, n) :: t => iter c n s :: ends (iter c n s) t end.
+
+  (* SimpleDirectedControlSampler::getBestControl: k candidate (control, sampled step count) pairs are propagated while valid
+     from the same source; the first one whose end state is strictly closer to the target than everything before it is kept.
+     Result: the control, the number of steps that were actually performed, and the state reached (written to dest). *)
+  Variable dist : St -> Z.                 (* si_->distance(., dest) *)
+  Definition cand_eval (s : St) (cn : C * nat) : C * nat * St := let r := pwv s (fst cn) (snd cn) in (fst cn, fst r, snd r).
+  Fixpoint best_loop (s : St) (best : C * nat * St) (bd : Z) (l : list (C * nat)) : C * nat * St :=
+    match l with
+    | [] => best
+    | cn :: t => let r := cand_eval s cn in let dd := dist (snd r) in
+                 if (dd <? bd)%Z then best_loop s r dd t else best_loop s best bd t
+    end.
+  Definition best_control (s : St) (first : C * nat) (rest : list (C * nat)) : C * nat * St :=
+    let r0 := cand_eval s first in best_loop s r0 (dist (snd r0)) rest.
 End Control.
 
 (* ---- the admission rule for control-planner reports: facts produced by the harness's own replay *)
@@ -77,3 +91,6 @@ Definition pwv_run (steps : nat) (start : Z) (bad : list Z) : Z * (nat * Z) * li
   (propagate Z unit (fun _ x => (x + 1)%Z) start tt steps,
    pwv Z unit (fun _ x => (x + 1)%Z) (zc_valid bad) start tt steps,
    pwv_states Z unit (fun _ x => (x + 1)%Z) (zc_valid bad) tt steps start).
+(* the directed sampler on the same instance: a control is the integer added per step, distance = |x - target| *)
+Definition dcs_run (start target : Z) (bad : list Z) (first : Z * nat) (rest : list (Z * nat)) : Z * nat * Z :=
+  best_control Z Z (fun u x => (x + u)%Z) (zc_valid bad) (fun x => Z.abs (x - target)) start first rest.
